@@ -73,12 +73,13 @@ class C04(Prop):
             "(exact arithmetic) and float tensors; kinds: scalar product of two states, norm (canonical and not), TTNO expectation value, tensor-product "
             "expectation value on 0..N sites with non-Hermitian factors (with and without the centre shortcut), TTNO.as_matrix; non-trivial = at least 2 nodes")
     clauses = [
-        ("I", "per explored instance (vm_compute on the model, which is tied to the code by value): the block recursion of contract_two_ttns / expectation_value "
-              "yields the closed diagram in which every edge wire of every network is bound exactly once and each ket leg meets the same node's bra leg "
-              "(resp. ket->operator input, operator output->bra): summary = expected summary"),
-        ("F", "as_matrix permutation evens++odds is a permutation of the 2n legs with outputs first, in contraction order (C04_as_matrix_perm); "
-              "g_tensordot axis arithmetic lemmas (C04_tensordot_*)"),
-        ("V", "norm() total on every state, expectation values with/without centre shortcut: dense oracle"),
+        ("F", "for all trees and independent child orders of ket / bra / operator (wf_two / wf_three): contract_two_ttns and expectation_value succeed and return the closed "
+              "network: no open axis, atoms = all atoms, every edge wire bound, glued pairs exactly (ket leg n, bra leg n) resp. (ket leg n, operator input n) and "
+              "(operator output n, conjugate ket leg n) (C04_contract_two_ttns_closed, C04_expectation_value_closed, local lemmas C04_all_but_one_axes, C04_bra_to_ket_ignore_axes, ...)"),
+        ("F", "as_matrix permutation evens++odds is a permutation of the 2n legs with outputs first, in contraction order; tensordot bookkeeping"),
+        ("I", "per explored instance: the hypothesis checkers two_ok / three_ok of those theorems and, as a cross-check, the closed-diagram summary, by vm_compute; "
+              "the implementation's number equals the value of that diagram (exact arithmetic on Gaussian-integer tensors)"),
+        ("V", "norm() total on every state, tensor products on 0..N sites, centre shortcuts, gauge independence: dense oracle"),
     ]
     trusted_base = ["NumPy tensordot/transpose/reshape implement the diagram operations (validated exactly on integer tensors)"]
 
@@ -232,8 +233,27 @@ class C04(Prop):
                 ol = coq_list([("(" + wmodel.coq_op(o, idm) + ")") for o in ob["oops"]])
                 exprs.append(f"three_case {kl} {ol} {coq_nat_big(OOFF)} {coq_nat(OAOFF)} {coq_nat_big(WOFF)} {coq_nat(AOFF)}")
             idx.append(i)
-        imports = "From Coq Require Import List Arith. From PTN Require Import TTN.Store Contr.Blocks. Import ListNotations."
+        imports = "From Coq Require Import List Arith. From PTN Require Import TTN.Store Contr.Blocks Contr.Closed. Import ListNotations."
         vals = coq_eval(ctx, imports, exprs, shard=15, scope="nat_scope", timeout=600)
+        # hypotheses of the universal theorems C04_two_ok_closed / C04_three_ok_closed, per instance
+        hyp = []
+        for i in idx:
+            ob = obs[i]
+            idm = self._idms[i]
+            kl = coq_list([("(" + wmodel.coq_op(o, idm) + ")") for o in ob["kops"]])
+            if ob["kind"] == "two":
+                bl = coq_list([("(" + wmodel.coq_op(o, idm) + ")") for o in ob["bops"]])
+                hyp.append(f"two_ok (fst (run empty_store {kl})) (fst (run (store_at {coq_nat(WOFF)} {coq_nat(AOFF)}) {bl}))")
+            else:
+                ol = coq_list([("(" + wmodel.coq_op(o, idm) + ")") for o in ob["oops"]])
+                hyp.append(f"three_ok {coq_nat(WOFF)} (fst (run empty_store {kl})) (fst (run (store_at {coq_nat(OOFF)} {coq_nat(OAOFF)}) {ol}))")
+        hv = coq_eval(ctx, imports, hyp, shard=40, scope="nat_scope", timeout=600)
+        for i, h in zip(idx, hv):
+            self._closed[0] += 1
+            if h is True:
+                self._closed[1] += 1
+            else:
+                self._closed[2].append(f"seed {cases[i]['seed']}: hypothesis checker of the closed-network theorem is not true: {h}")
         out = [None] * len(cases)
         for i, v in zip(idx, vals):
             out[i] = v
